@@ -59,7 +59,7 @@ Definition s_getn (n : nat) (s : stream) : list ascii * stream :=
   else ([], set_fail s).
 
 (* ------------------------------------------------------------------------------------------------ CSVReader *)
-Inductive err := EInvalidStream | EExtraction | EConversion | EUnexpected | ENotConsumed | EFuel.
+Inductive err := EInvalidStream | EExtraction | EConversion | EUnexpected | ENotConsumed | EFuel | ETooLong.
 Record reader := mkR { buf : list ascii; keep : bool }.      (* s[0..bufidx), keep_reading *)
 Definition reader0 : reader := mkR [] true.
 
@@ -98,6 +98,9 @@ Definition read (rd : reader) (s : stream) : stream * (err + (V * reader)) :=
       match read_single (buf rd1) with
       | None => (s1, inl EConversion)
       | Some (v, k) =>
+          if (k =? length (buf rd1)) && keep rd1 then (s1, inl ETooLong)  (* ptr == bufend && keep_reading: the number
+                                                                          fills the window and the line continues *)
+          else
           match skipn k (buf rd1) with
           | [] => (s1, inr (v, mkR [] (keep rd1)))                    (* ptr == bufend: bufidx = 0 *)
           | c :: tl => if Ascii.eqb c sep
@@ -259,11 +262,24 @@ Fixpoint mapM {A B} (g : A -> option B) (l : list A) : option (list B) :=
   end.
 
 Definition spec_row (line : list ascii) : option (list V) := mapM parse_field (fields line).
+
+(* the over-long-token rule of the reader: a field must be shorter than the window, except that the field that ends the
+   line (no separator behind it) may fill the window exactly; anything longer makes the row malformed *)
+Fixpoint fitsb (fs : list (list ascii)) : bool :=
+  match fs with
+  | [] => true
+  | [f] => length f <=? bufmax
+  | f :: fs' => (length f <? bufmax) && fitsb fs'
+  end.
+Definition spec_row64 (line : list ascii) : option (list V) :=
+  if fitsb (split line) then spec_row line else None.
 Definition spec_row_n (n : nat) (line : list ascii) : option (list V) :=
   match spec_row line with
   | Some vs => if length vs =? n then Some vs else None
   | None => None
   end.
+Definition spec_row64_n (n : nat) (line : list ascii) : option (list V) :=
+  if fitsb (split line) then spec_row_n n line else None.
 
 End Reader.
 
